@@ -12,9 +12,11 @@ ASSUME = [
 
 def configs(tier):
     feats = {"c2", "post", "restart", "nope", "head"}
+    if tier == "thorough":
+        feats = feats | {"burst"}
     props = {"cal": {"displayname": ["d1"]}}
     out = [
-        Config(front="wsgi", backend="tree", prefix="/", features=feats, props=props, oracles={"C01"}),
+        Config(front="wsgi", backend="tree", prefix="/", features=feats | {"burst"}, props=props, oracles={"C01"}),
         Config(front="aio", backend="tree", prefix="/dav/", features=feats, props=props, oracles={"C01"}),
         Config(front="wsgi", backend="bare", prefix="/dav/", features=feats, props=props, oracles={"C01"}),
     ]
